@@ -1,0 +1,296 @@
+//! Verification hooks: thin `pub` wrappers over crate-private kernels.
+//!
+//! Only compiled with the non-default `verif-hooks` cargo feature. The wrappers contain no
+//! logic of their own: they convert between plain `[i32; 256]` coefficient arrays and the
+//! crate-private `R`/`T` polynomial types and forward to the function of the same name.
+//! With the feature off the crate is unchanged.
+
+use crate::types::{R, T};
+use crate::{conversion, encodings, hashing, helpers, high_low, ntt};
+
+/// Plain coefficient array used at the hook boundary.
+pub type Poly = [i32; 256];
+
+fn r_of<const N: usize>(v: &[Poly; N]) -> [R; N] { core::array::from_fn(|i| R(v[i])) }
+
+fn t_of<const N: usize>(v: &[Poly; N]) -> [T; N] { core::array::from_fn(|i| T(v[i])) }
+
+fn of_r<const N: usize>(v: &[R; N]) -> [Poly; N] { core::array::from_fn(|i| v[i].0) }
+
+fn of_t<const N: usize>(v: &[T; N]) -> [Poly; N] { core::array::from_fn(|i| v[i].0) }
+
+
+// ----- helpers.rs -----
+
+/// Forwards to `helpers::partial_reduce64`.
+#[must_use]
+pub fn partial_reduce64(a: i64) -> i32 { helpers::partial_reduce64(a) }
+
+/// Forwards to `helpers::partial_reduce32`.
+#[must_use]
+pub fn partial_reduce32(a: i32) -> i32 { helpers::partial_reduce32(a) }
+
+/// Forwards to `helpers::full_reduce32`.
+#[must_use]
+pub fn full_reduce32(a: i32) -> i32 { helpers::full_reduce32(a) }
+
+/// Forwards to `helpers::center_mod`.
+#[must_use]
+pub fn center_mod(m: i32) -> i32 { helpers::center_mod(m) }
+
+/// Forwards to `helpers::mont_reduce`.
+#[must_use]
+pub fn mont_reduce(a: i64) -> i32 { helpers::mont_reduce(a) }
+
+/// Forwards to `helpers::bit_length`.
+#[must_use]
+pub fn bit_length(x: i32) -> usize { helpers::bit_length(x) }
+
+/// Forwards to `helpers::is_in_range`.
+#[must_use]
+pub fn is_in_range(w: &Poly, lo: i32, hi: i32) -> bool { helpers::is_in_range(&R(*w), lo, hi) }
+
+/// Forwards to `helpers::infinity_norm`.
+#[must_use]
+pub fn infinity_norm<const ROW: usize>(w: &[Poly; ROW]) -> i32 { helpers::infinity_norm(&r_of(w)) }
+
+/// Forwards to `helpers::to_mont`.
+#[must_use]
+pub fn to_mont<const N: usize>(v: &[Poly; N]) -> [Poly; N] { of_t(&helpers::to_mont(&t_of(v))) }
+
+/// Forwards to `helpers::mat_vec_mul`.
+#[must_use]
+pub fn mat_vec_mul<const K: usize, const L: usize>(
+    a_hat: &[[Poly; L]; K], u_hat: &[Poly; L],
+) -> [Poly; K] {
+    let a: [[T; L]; K] = core::array::from_fn(|i| t_of(&a_hat[i]));
+    of_t(&helpers::mat_vec_mul(&a, &t_of(u_hat)))
+}
+
+/// Forwards to `helpers::add_vector_ntt`.
+#[must_use]
+pub fn add_vector_ntt<const K: usize>(v: &[Poly; K], w: &[Poly; K]) -> [Poly; K] {
+    of_r(&helpers::add_vector_ntt(&r_of(v), &r_of(w)))
+}
+
+/// Returns a copy of `helpers::ZETA_TABLE_MONT`.
+#[must_use]
+pub fn zeta_table_mont() -> [i32; 256] { helpers::ZETA_TABLE_MONT }
+
+
+// ----- ntt.rs -----
+
+/// Forwards to `ntt::ntt`.
+#[must_use]
+pub fn ntt<const N: usize>(w: &[Poly; N]) -> [Poly; N] { of_t(&ntt::ntt(&r_of(w))) }
+
+/// Forwards to `ntt::inv_ntt`.
+#[must_use]
+pub fn inv_ntt<const N: usize>(w_hat: &[Poly; N]) -> [Poly; N] {
+    of_r(&ntt::inv_ntt(&t_of(w_hat)))
+}
+
+
+// ----- high_low.rs -----
+
+/// Forwards to `high_low::power2round`; returns `(r1, r0)`.
+#[must_use]
+pub fn power2round<const K: usize>(r: &[Poly; K]) -> ([Poly; K], [Poly; K]) {
+    let (r1, r0) = high_low::power2round(&r_of(r));
+    (of_r(&r1), of_r(&r0))
+}
+
+/// Forwards to `high_low::decompose`; returns `(r1, r0)`.
+#[must_use]
+pub fn decompose(gamma2: i32, r: i32) -> (i32, i32) { high_low::decompose(gamma2, r) }
+
+/// Forwards to `high_low::high_bits`.
+#[must_use]
+pub fn high_bits(gamma2: i32, r: i32) -> i32 { high_low::high_bits(gamma2, r) }
+
+/// Forwards to `high_low::low_bits`.
+#[must_use]
+pub fn low_bits(gamma2: i32, r: i32) -> i32 { high_low::low_bits(gamma2, r) }
+
+/// Forwards to `high_low::make_hint`.
+#[must_use]
+pub fn make_hint(gamma2: i32, z: i32, r: i32) -> bool { high_low::make_hint(gamma2, z, r) }
+
+/// Forwards to `high_low::use_hint`.
+#[must_use]
+pub fn use_hint(gamma2: i32, h: i32, r: i32) -> i32 { high_low::use_hint(gamma2, h, r) }
+
+
+// ----- conversion.rs -----
+
+/// Forwards to `conversion::coeff_from_three_bytes`.
+///
+/// # Errors
+/// Returns the `⊥` of Algorithm 14 as an error.
+pub fn coeff_from_three_bytes<const CTEST: bool>(b: [u8; 3]) -> Result<i32, &'static str> {
+    conversion::coeff_from_three_bytes::<CTEST>(b)
+}
+
+/// Forwards to `conversion::coeff_from_half_byte`.
+///
+/// # Errors
+/// Returns the `⊥` of Algorithm 15 as an error.
+pub fn coeff_from_half_byte<const CTEST: bool>(eta: i32, b: u8) -> Result<i32, &'static str> {
+    conversion::coeff_from_half_byte::<CTEST>(eta, b)
+}
+
+/// Forwards to `conversion::simple_bit_pack`.
+pub fn simple_bit_pack(w: &Poly, b: i32, bytes_out: &mut [u8]) {
+    conversion::simple_bit_pack(&R(*w), b, bytes_out);
+}
+
+/// Forwards to `conversion::bit_pack`.
+pub fn bit_pack(w: &Poly, a: i32, b: i32, bytes_out: &mut [u8]) {
+    conversion::bit_pack(&R(*w), a, b, bytes_out);
+}
+
+/// Forwards to `conversion::simple_bit_unpack`.
+///
+/// # Errors
+/// Propagates the range error of the wrapped function.
+pub fn simple_bit_unpack(v: &[u8], b: i32) -> Result<Poly, &'static str> {
+    conversion::simple_bit_unpack(v, b).map(|r| r.0)
+}
+
+/// Forwards to `conversion::bit_unpack`.
+///
+/// # Errors
+/// Propagates the range error of the wrapped function.
+pub fn bit_unpack(v: &[u8], a: i32, b: i32) -> Result<Poly, &'static str> {
+    conversion::bit_unpack(v, a, b).map(|r| r.0)
+}
+
+/// Forwards to `conversion::hint_bit_pack`.
+pub fn hint_bit_pack<const CTEST: bool, const K: usize>(
+    omega: i32, h: &[Poly; K], y_bytes: &mut [u8],
+) {
+    conversion::hint_bit_pack::<CTEST, K>(omega, &r_of(h), y_bytes);
+}
+
+/// Forwards to `conversion::hint_bit_unpack`.
+///
+/// # Errors
+/// Returns the `⊥` of Algorithm 21 as an error.
+pub fn hint_bit_unpack<const K: usize>(
+    omega: i32, y_bytes: &[u8],
+) -> Result<[Poly; K], &'static str> {
+    conversion::hint_bit_unpack::<K>(omega, y_bytes).map(|h| of_r(&h))
+}
+
+
+// ----- encodings.rs -----
+
+/// Forwards to `encodings::pk_encode`.
+#[must_use]
+pub fn pk_encode<const K: usize, const PK_LEN: usize>(
+    rho: &[u8; 32], t1: &[Poly; K],
+) -> [u8; PK_LEN] {
+    encodings::pk_encode::<K, PK_LEN>(rho, &r_of(t1))
+}
+
+/// Forwards to `encodings::pk_decode`; returns `(rho, t1)`.
+///
+/// # Errors
+/// Propagates the error of the wrapped function.
+pub fn pk_decode<const K: usize, const PK_LEN: usize>(
+    pk: &[u8; PK_LEN],
+) -> Result<([u8; 32], [Poly; K]), &'static str> {
+    encodings::pk_decode::<K, PK_LEN>(pk).map(|(rho, t1)| (*rho, of_r(&t1)))
+}
+
+/// Forwards to `encodings::sk_encode`.
+#[must_use]
+#[allow(clippy::too_many_arguments, clippy::similar_names)]
+pub fn sk_encode<const K: usize, const L: usize, const SK_LEN: usize>(
+    eta: i32, rho: &[u8; 32], k: &[u8; 32], tr: &[u8; 64], s_1: &[Poly; L], s_2: &[Poly; K],
+    t_0: &[Poly; K],
+) -> [u8; SK_LEN] {
+    encodings::sk_encode::<K, L, SK_LEN>(eta, rho, k, tr, &r_of(s_1), &r_of(s_2), &r_of(t_0))
+}
+
+/// Forwards to `encodings::sk_decode`; returns `(rho, K, tr, s1, s2, t0)`.
+///
+/// # Errors
+/// Propagates the error of the wrapped function.
+#[allow(clippy::type_complexity)]
+pub fn sk_decode<const K: usize, const L: usize, const SK_LEN: usize>(
+    eta: i32, sk: &[u8; SK_LEN],
+) -> Result<([u8; 32], [u8; 32], [u8; 64], [Poly; L], [Poly; K], [Poly; K]), &'static str> {
+    encodings::sk_decode::<K, L, SK_LEN>(eta, sk)
+        .map(|(rho, k, tr, s1, s2, t0)| (*rho, *k, *tr, of_r(&s1), of_r(&s2), of_r(&t0)))
+}
+
+/// Forwards to `encodings::sig_encode`.
+#[must_use]
+pub fn sig_encode<
+    const CTEST: bool,
+    const K: usize,
+    const L: usize,
+    const LAMBDA_DIV4: usize,
+    const SIG_LEN: usize,
+>(
+    gamma1: i32, omega: i32, c_tilde: &[u8; LAMBDA_DIV4], z: &[Poly; L], h: &[Poly; K],
+) -> [u8; SIG_LEN] {
+    encodings::sig_encode::<CTEST, K, L, LAMBDA_DIV4, SIG_LEN>(
+        gamma1,
+        omega,
+        c_tilde,
+        &r_of(z),
+        &r_of(h),
+    )
+}
+
+/// Forwards to `encodings::sig_decode`; returns `(c_tilde, z, h)`.
+///
+/// # Errors
+/// Propagates the error of the wrapped function.
+#[allow(clippy::type_complexity)]
+pub fn sig_decode<const K: usize, const L: usize, const LAMBDA_DIV4: usize, const SIG_LEN: usize>(
+    gamma1: i32, omega: i32, sigma: &[u8; SIG_LEN],
+) -> Result<([u8; LAMBDA_DIV4], [Poly; L], Option<[Poly; K]>), &'static str> {
+    encodings::sig_decode::<K, L, LAMBDA_DIV4, SIG_LEN>(gamma1, omega, sigma)
+        .map(|(c, z, h)| (c, of_r(&z), h.map(|h| of_r(&h))))
+}
+
+/// Forwards to `encodings::w1_encode`.
+pub fn w1_encode<const K: usize>(gamma2: i32, w1: &[Poly; K], w1_tilde: &mut [u8]) {
+    encodings::w1_encode::<K>(gamma2, &r_of(w1), w1_tilde);
+}
+
+
+// ----- hashing.rs -----
+
+/// Forwards to `hashing::sample_in_ball`.
+#[must_use]
+pub fn sample_in_ball<const CTEST: bool>(tau: i32, rho: &[u8]) -> Poly {
+    hashing::sample_in_ball::<CTEST>(tau, rho).0
+}
+
+/// Forwards to `hashing::expand_a`.
+#[must_use]
+pub fn expand_a<const CTEST: bool, const K: usize, const L: usize>(
+    rho: &[u8; 32],
+) -> [[Poly; L]; K] {
+    let a = hashing::expand_a::<CTEST, K, L>(rho);
+    core::array::from_fn(|i| of_t(&a[i]))
+}
+
+/// Forwards to `hashing::expand_s`; returns `(s1, s2)`.
+#[must_use]
+pub fn expand_s<const CTEST: bool, const K: usize, const L: usize>(
+    eta: i32, rho: &[u8; 64],
+) -> ([Poly; L], [Poly; K]) {
+    let (s1, s2) = hashing::expand_s::<CTEST, K, L>(eta, rho);
+    (of_r(&s1), of_r(&s2))
+}
+
+/// Forwards to `hashing::expand_mask`.
+#[must_use]
+pub fn expand_mask<const L: usize>(gamma1: i32, rho: &[u8; 64], mu: u16) -> [Poly; L] {
+    of_r(&hashing::expand_mask::<L>(gamma1, rho, mu))
+}
